@@ -86,9 +86,12 @@ def symmetric_update(ctx):
             strip_refs(p[5].slice).path == (0,)
         both_old = len(p[3]) == 1 and len(m[3]) == 1 and p[3][0][0] == 1 and m[3][0][0] == 1
         same_round = _round_sig(p[4]) == _round_sig(m[4])
-        ok = same_def and same_key and both_old and same_round
+        # the moved amount enters unscaled: value = round(old + moved) / round(old - moved)
+        from ..flow import unround
+        exact = _exact_sum(unround(p[4])[0], p[2], ast.Add) and _exact_sum(unround(m[4])[0], m[2], ast.Sub)
+        ok = same_def and same_key and both_old and same_round and exact
         fact = (f"+{show(p[2], 30)} into {p[1]}, -{show(m[2], 30)} from {m[1]}; same definition: {same_def}; "
-                f"same key: {same_key}; old entries kept: {both_old}; same rounding: {same_round}")
+                f"same key: {same_key}; old entries kept: {both_old}; same rounding: {same_round}; unscaled: {exact}")
         # the moved amount is this item's own amount times the ratio
         mv = strip_refs(p[2])
         own = isinstance(mv, ast.BinOp) and isinstance(mv.op, ast.Mult) and any(
@@ -108,6 +111,16 @@ def symmetric_update(ctx):
         ctx.ob('C01.R1', fi, stmt.lineno, f"constant store to `{okey}` only normalises a (negative) zero",
                const_value(value) == 0 and bool(g), fact=str(g[0]) if g else 'unguarded',
                why='an entry is overwritten with a constant', key='constant overwrite')
+
+
+def _exact_sum(v, moved, op):
+    """v is `old <op> moved` (or `moved + old`) with the moved amount itself, not a multiple of it."""
+    v = strip_refs(v) if not isinstance(v, ast.BinOp) else v
+    if not (isinstance(v, ast.BinOp) and isinstance(v.op, op)):
+        return False
+    if v.right is moved or (isinstance(v.right, Ref) and isinstance(moved, Ref) and v.right.defid == moved.defid):
+        return True
+    return op is ast.Add and (v.left is moved or (isinstance(v.left, Ref) and isinstance(moved, Ref) and v.left.defid == moved.defid))
 
 
 def _loop_entry_extra(state):
